@@ -18,7 +18,8 @@ HASH_TWINS = {-1: -2, -2: -1, 0: 2 ** 61 - 1, 2 ** 61 - 1: 0}
 
 KEY_ALPHABETS = {
     # incl. pairs hash() cannot tell apart: -1 / -2, 0 / 2**61-1, 1 / 2**61 (distinct keys all the same)
-    "int": [0, 1, 2, 3, -1, -2, 2 ** 40, 2 ** 61 - 1, 2 ** 61],
+    # ... and True (== 1, an int column absorbs it): equal keys of different types; the output must carry each row's own cell
+    "int": [0, 1, 2, 3, -1, -2, 2 ** 40, 2 ** 61 - 1, 2 ** 61, True],
     "str": ["a", "b", "A", "", "ab", "é"],
     "bool": [True, False],
     "date": [date(2020, 1, 1), date(2020, 1, 2), date(2021, 6, 30), date(1999, 12, 31)],
